@@ -40,6 +40,9 @@ pub struct S08 {
     pub image: Vec<u8>,
     pub wword: Wd,
     pub ops: Vec<Op8>,
+    /// scale scenario (zero run / unary part / copy of 2^32 bits over the sparse stubs)
+    #[serde(default)]
+    pub giant: Option<crate::giant::Giant>,
 }
 
 pub struct C08;
@@ -63,6 +66,19 @@ impl Family for C08 {
         let wword = Wd::ALL[((index / 10) % 5) as usize];
         let strict = (index / 50) % 2 == 1;
         let pattern = PATTERNS[rng.below(5) as usize];
+        if crate::giant::is_giant_index(index) {
+            let g = crate::giant::unary_only(crate::giant::gen_giant(rng));
+            return S08 {
+                e,
+                rkind: g.rkind,
+                strict: true,
+                pattern,
+                image: Vec::new(),
+                wword: g.wword,
+                ops: Vec::new(),
+                giant: Some(g),
+            };
+        }
         let rwb = rkind.word_bits();
         let wwb = wword.bits();
         // scale: one run in 200 copies more than 2^16 bits out of a ~12 KiB image
@@ -150,10 +166,14 @@ impl Family for C08 {
             image,
             wword,
             ops,
+            giant: None,
         }
     }
 
     fn exec(s: &S08, ctx: &mut Ctx) {
+        if let Some(g) = &s.giant {
+            return crate::giant::giant_copy(s.e, g, ctx);
+        }
         let e = s.e;
         let rb = if s.strict { RdBackend::MemStrict } else { RdBackend::MemInf };
         let mut sim = RSim::new("C08", e, s.rkind, &rb, &s.image);
@@ -364,6 +384,12 @@ impl Family for C08 {
 
     fn shrink(s: &S08) -> Vec<S08> {
         let mut out = Vec::new();
+        if let Some(g) = &s.giant {
+            for g2 in crate::giant::shrink_giant(g) {
+                out.push(S08 { giant: Some(g2), ..s.clone() });
+            }
+            return out;
+        }
         for ops in shrink_list(&s.ops) {
             out.push(S08 { ops, ..s.clone() });
         }
